@@ -562,6 +562,16 @@ pub fn gen_c12(tier: &str, seed: u64, out: &mut Vec<String>) {
                 "-".to_string()
             };
             out.push(format!("hook {} {} h{} {} {}", phase, mn, id, oc, edit));
+            if rng.chance(1, 4) {
+                // the very same callback registered once more: other phase (tracer pattern), same phase twice, or another mnemonic —
+                // every registration counts, each fires once per instruction and phase it was registered for
+                let (p2, m2) = match rng.below(4) {
+                    0 | 1 => (if phase == "before" { "after" } else { "before" }, *mn),
+                    2 => (phase, *mn),
+                    _ => (phase, *rng.pick(mns)),
+                };
+                out.push(format!("hookdup {} {} h{} {} {} {}", p2, m2, id, phase, oc, edit));
+            }
         }
         for k in 0..(plen + 2) {
             out.push("step".into());
